@@ -87,9 +87,9 @@ def match_known(known, prop, sig):
     return None
 
 
-def run_shards(prop, cfg, tier, seed, binpath, replay=None, extra_env=None):
+def run_shards(prop, cfg, tier, seed, binpath, replay=None, extra_env=None, sub=""):
     nsh = 1 if replay else cfg["shards"][tier]
-    ldir = os.path.join(LOGS, prop)
+    ldir = os.path.join(LOGS, prop + sub)
     os.makedirs(ldir, exist_ok=True)
     for f in os.listdir(ldir):
         try:
@@ -173,7 +173,26 @@ def main():
     if binpath is None:
         print("INCONCLUSIVE property=%s reason=build-failed" % prop)
         return 2
-    results, problems, nsh = run_shards(prop, cfg, tier, seed, binpath, replay)
+    results, problems, nsh = [], [], 0
+    if not (replay and replay.get("binary") and replay["binary"] != cfg["binary"]):
+        results, problems, nsh = run_shards(prop, cfg, tier, seed, binpath, replay)
+    # a property may have a second part hosted by another binary (e.g. C17: scripted subscribers in
+    # `pure`, the real hook chain in `appmon`)
+    for extra in cfg.get("also", []):
+        if replay and replay.get("binary") != extra["binary"]:
+            continue
+        b2, bt2 = build(extra["binary"])
+        if b2 is None:
+            print("INCONCLUSIVE property=%s reason=build-failed" % prop)
+            return 2
+        bt += bt2
+        cfg2 = dict(cfg)
+        cfg2["shards"] = extra["shards"]
+        r2, p2, n2 = run_shards(prop, cfg2, tier, seed, b2, replay, sub="-" + extra["binary"])
+        for r in r2:
+            for v in r.get("violations") or []:
+                v.setdefault("case", {})["binary"] = extra["binary"]
+        results, problems, nsh = results + r2, problems + p2, nsh + n2
     race_info = None
     if not replay and cfg.get("race", {}).get(tier):
         race_info = run_race(prop, cfg, tier, seed)
@@ -201,7 +220,8 @@ def main():
         for n in r.get("notes") or []:
             if n not in notes and len(notes) < 40:
                 notes.append(n)
-        rule = r.get("rule") or rule
+        if r.get("rule") and r["rule"] not in rule:
+            rule = (rule + " || " if rule else "") + r["rule"]
         if r.get("inconclusive"):
             inconcl.append(r["inconclusive"])
         for v in r.get("violations") or []:
